@@ -17,10 +17,12 @@ def stage_translation(ctx):
 
 SPEC = spec(
     'C07',
-    ['C07_rtu_prefix_is_partial', 'C07_tcp_prefix_is_partial', 'C07_aa55_prefix_is_partial', 'C07_fragment_is_stored_no_retransmission',
+    ['C07_datagram_received_is_the_model', 'C07_data_received_is_the_model',
+     'C07_rtu_prefix_is_partial', 'C07_tcp_prefix_is_partial', 'C07_aa55_prefix_is_partial', 'C07_fragment_is_stored_no_retransmission',
      'C07_exact_remainder_is_appended_and_delivered', 'C07_other_lengths_are_never_appended', 'C07_each_transmission_starts_without_fragment',
      'C07_reassembled_data_was_validated'],
-    text='Byte level (validators translated from /repo on this run): for every read count and payload, every proper prefix of a '
+    text='Refinement theorems re-proved on every run: the model functions used below ARE the current source of the corresponding synchronous methods of protocol.py (translated by tools/cb2v.py into the statement language of Model/Callbacks.v, fail-closed): datagram_received, data_received. '
+         'Byte level (validators translated from /repo on this run): for every read count and payload, every proper prefix of a '
          'valid answer that contains the header (>= 5 bytes RTU, >= 9 bytes TCP/AA55) is "partial" with exactly the full length.  '
          'Protocol model (trace-validated): a partial verdict stores the fragment and re-arms the timer without transmitting; a '
          'chunk of exactly the missing length is appended and delivered iff the validator accepts the concatenation (hence '
